@@ -69,3 +69,111 @@ fn c04_4b_witness_f2_reverse_start_out_of_range() {
     let t = Transport::new(start, None, true, 48000, n);
     kani::cover!(t.playing);
 }
+
+// ----------------------------------------------------------------------------------------------------------------
+// Kani twins of the Verus contracts on the wrap loops: bounded (<= 4 wrap iterations), but they yield concrete,
+// replayable counterexamples when the unbounded Verus obligation of the same function fails.
+// ----------------------------------------------------------------------------------------------------------------
+fn any_wf_transport() -> Transport {
+    let playing: bool = kani::any();
+    let position: usize = kani::any();
+    kani::assume(position < usize::MAX);
+    let region = if kani::any() {
+        let s: usize = kani::any();
+        let e: usize = kani::any();
+        kani::assume(s < e);
+        Some((s, e))
+    } else { None };
+    Transport { position, loop_region: region, playing }
+}
+
+// @ob id=C04.1w,C01.1w strength=bounded tier=quick bound="any well-formed transport with at most 4 wrap iterations (position + 1 < loop_end + 4 x loop length); unwinding assertion on" fn=sound/transport.rs::Transport::increment_position
+// @req loop_start < loop_end when a loop is set; position < usize::MAX
+// @ens not playing => unchanged; playing => position' = position + 1 reduced by whole loop lengths until below loop_end (inside the loop: e-1 is followed by loop_start, never loop_end); playing' == (position' < num_frames); loop region untouched
+#[kani::proof]
+#[kani::unwind(6)]
+fn c04_1w_increment_position() {
+    let mut t = any_wf_transport();
+    let n: usize = kani::any();
+    let (p0, r0, pl0) = (t.position, t.loop_region, t.playing);
+    if let Some((s, e)) = r0 { kani::assume(p0 + 1 < e || (p0 + 1 - e) / (e - s) < 4); }
+    t.increment_position(n);
+    assert!(t.loop_region == r0, "C01.1w: the loop region is untouched");
+    if !pl0 { assert!(t.position == p0 && !t.playing, "C04.1w: a stopped transport does not move"); return; }
+    match r0 {
+        None => assert!(t.position == p0 + 1, "C04.1w: advances by one frame"),
+        Some((s, e)) => {
+            assert!(t.position < e, "C04.1w: the position is wrapped below the loop end");
+            assert!(t.position <= p0 + 1 && (p0 + 1 - t.position) % (e - s) == 0, "C04.1w: by whole loop lengths");
+            if p0 + 1 < e { assert!(t.position == p0 + 1, "C04.1w: no wrap before the loop end"); }
+            if p0 >= s && p0 < e { assert!(t.position == if p0 + 1 == e { s } else { p0 + 1 } && t.position >= s, "C04.1w: wraps from the loop end straight to the loop start"); }
+        }
+    }
+    assert!(t.playing == (t.position < n), "C04.1w: playback ends exactly when the position reaches the length");
+    kani::cover!(matches!(r0, Some((s, e)) if p0 + 1 == e && s > 0));
+    kani::cover!(r0.is_none() && !t.playing);
+}
+
+// @ob id=C04.2w,C01.1x strength=bounded tier=quick bound="any well-formed transport with at most 4 wrap iterations; unwinding assertion on" fn=sound/transport.rs::Transport::decrement_position
+// @req loop_start < loop_end when a loop is set
+// @ens not playing => unchanged; with a loop: a position at or before loop_start is first raised by whole loop lengths above loop_start, then decremented (at loop_start the predecessor is loop_end - 1), and playback never stops; without a loop: position 0 stops playback, otherwise position - 1
+#[kani::proof]
+#[kani::unwind(7)]
+fn c04_2w_decrement_position() {
+    let mut t = any_wf_transport();
+    let (p0, r0, pl0) = (t.position, t.loop_region, t.playing);
+    if let Some((s, e)) = r0 { kani::assume(p0 > s || (s - p0) / (e - s) < 4); }
+    t.decrement_position();
+    assert!(t.loop_region == r0, "C01.1x: the loop region is untouched");
+    if !pl0 { assert!(t.position == p0 && !t.playing, "C04.2w: a stopped transport does not move"); return; }
+    match r0 {
+        None => {
+            if p0 == 0 { assert!(!t.playing && t.position == 0, "C04.2w: playing backwards past the start stops"); }
+            else { assert!(t.playing && t.position == p0 - 1, "C04.2w: steps back by one frame"); }
+        }
+        Some((s, e)) => {
+            assert!(t.playing, "C04.2w: a looping transport does not stop when playing backwards");
+            if p0 > s { assert!(t.position == p0 - 1, "C04.2w: inside or after the loop: one step back"); }
+            else { assert!(t.position >= s && t.position < e && (t.position + 1 - p0) % (e - s) == 0, "C04.2w: wrapped up by whole loop lengths into the loop"); }
+            if p0 == s { assert!(t.position == e - 1, "C04.2w: from the loop start straight to the loop end - 1"); }
+        }
+    }
+    kani::cover!(matches!(r0, Some((s, _)) if p0 == s));
+    kani::cover!(r0.is_none() && p0 == 0);
+}
+
+// @ob id=C04.3w,C01.1y strength=bounded tier=quick bound="any well-formed transport, target within 2 loop lengths of the loop; unwinding assertion on" timeout=1800 fn=sound/transport.rs::Transport::seek_to
+// @req loop_start < loop_end when a loop is set
+// @ens a target inside the loop (or any target without a loop) is hit exactly; a forward seek past the loop end is wrapped down below it, a backward (or equal) seek before the loop start is wrapped up to it, both by whole loop lengths; playing' == playing && position' < num_frames (a seek never restarts a stopped transport); loop region untouched
+#[kani::proof]
+#[kani::unwind(5)]
+fn c04_3w_seek_to() {
+    let mut t = any_wf_transport();
+    let n: usize = kani::any();
+    let target: usize = kani::any();
+    let (p0, r0, pl0) = (t.position, t.loop_region, t.playing);
+    if let Some((s, e)) = r0 {
+        kani::assume(target < e || (target - e) / (e - s) < 2);
+        kani::assume(target >= s || (s - target) / (e - s) < 2);
+    }
+    t.seek_to(target, n);
+    assert!(t.loop_region == r0, "C01.1y: the loop region is untouched");
+    match r0 {
+        None => assert!(t.position == target, "C04.3w: without a loop the seek lands on the target"),
+        Some((s, e)) => {
+            if target >= s && target < e { assert!(t.position == target, "C04.3w: a target inside the loop is hit exactly"); }
+            if target > p0 {
+                assert!(t.position <= target && (target - t.position) % (e - s) == 0, "C04.3w: forward seek wraps down by whole loop lengths");
+                assert!(t.position < e, "C04.3w: and lands below the loop end");
+                if target < e { assert!(t.position == target, "C04.3w: no wrap needed"); }
+            } else {
+                assert!(t.position >= target && (t.position - target) % (e - s) == 0, "C04.3w: backward seek wraps up by whole loop lengths");
+                assert!(t.position >= s, "C04.3w: and lands at or after the loop start");
+                if target >= s { assert!(t.position == target, "C04.3w: no wrap needed"); }
+            }
+        }
+    }
+    assert!(t.playing == (pl0 && t.position < n), "C04.3w: seeking beyond the end stops playback; a seek never restarts it");
+    kani::cover!(matches!(r0, Some((_, e)) if target > p0 && target >= e));
+    kani::cover!(matches!(r0, Some((s, _)) if target <= p0 && target < s));
+}
